@@ -45,6 +45,9 @@ pub struct GenParams {
     /// probability that a further member of a union is a version set of the SAME
     /// package as the first member (overlapping alternatives)
     pub p_union_same: f64,
+    /// probability that a requirement gets an additional alternative that matches nothing,
+    /// placed first or in the middle (a union with an empty member that is not the last)
+    pub p_union_empty: f64,
 }
 
 impl GenParams {
@@ -74,6 +77,7 @@ impl GenParams {
             p_top: 0.0,
             lone_last: false,
             p_union_same: 0.15,
+            p_union_empty: 0.0,
         }
     }
 
@@ -419,6 +423,29 @@ impl GenParams {
                 p_excl: 0.03,
                 ..b
             },
+            "unionempty" => GenParams {
+                // requirements with an alternative that matches nothing, in front of or between
+                // the alternatives that do; otherwise like "clean" (mostly conflict-free), with
+                // several direct requirements on one package's candidates
+                pkgs: (2, 6),
+                cands: (2, 4),
+                p_keep: 0.5,
+                p_allow_empty: 0.0,
+                reqs: (0, 2),
+                p_union: 0.3,
+                p_root_union: 0.3,
+                p_union_empty: 0.5,
+                p_cons: 0.1,
+                p_missing: 0.0,
+                p_unknown: 0.0,
+                p_lock: 0.0,
+                p_excl: 0.0,
+                p_favored: 0.3,
+                p_root_cons: 0.1,
+                p_top: 0.8,
+                root_reqs: (1, 3),
+                ..b
+            },
             "tiny" => GenParams {
                 pkgs: (2, 3),
                 cands: (1, 2),
@@ -536,7 +563,18 @@ pub fn gen_universe(rng: &mut Rng, g: &GenParams) -> (Universe, Problem) {
     }
 
     let mut vs_intern: Vec<(u32, Vec<u32>)> = Vec::new();
+    // set while a version set that matches nothing is wanted
+    let force_empty = std::cell::Cell::new(false);
     let mut mk_vs = |rng: &mut Rng, u: &Universe, name: u32, full: bool| -> u32 {
+        if force_empty.get() {
+            return match vs_intern.iter().position(|(n2, m2)| *n2 == name && m2.is_empty()) {
+                Some(i) => i as u32 + 1,
+                None => {
+                    vs_intern.push((name, vec![]));
+                    vs_intern.len() as u32
+                }
+            };
+        }
         let p = &u.pkg[name as usize - 1];
         let mut m: Vec<u32> = if full {
             p.cands.clone()
@@ -615,6 +653,18 @@ pub fn gen_universe(rng: &mut Rng, g: &GenParams) -> (Universe, Problem) {
                     }
                 }
             }
+            if rng.chance(g.p_union_empty) {
+                // an alternative without candidates, in front of (or between) the others
+                if let Some(je) = pick_target(rng, i) {
+                    force_empty.set(true);
+                    let ev = mk_vs(rng, &u, je, false);
+                    force_empty.set(false);
+                    let pos = rng.range(0, r.len() as u32 - 1) as usize;
+                    if !r.contains(&ev) {
+                        r.insert(pos, ev);
+                    }
+                }
+            }
             if !reqs.contains(&r) {
                 reqs.push(r);
             }
@@ -650,6 +700,16 @@ pub fn gen_universe(rng: &mut Rng, g: &GenParams) -> (Universe, Problem) {
             let v = mk_vs(rng, &u, j2, g.root_full);
             if !r.contains(&v) {
                 r.push(v);
+            }
+        }
+        if rng.chance(g.p_union_empty) {
+            force_empty.set(true);
+            let je = *rng.pick(&names);
+            let ev = mk_vs(rng, &u, je, false);
+            force_empty.set(false);
+            let pos = rng.range(0, r.len() as u32 - 1) as usize;
+            if !r.contains(&ev) {
+                r.insert(pos, ev);
             }
         }
         if !p.reqs.contains(&r) {
